@@ -35,7 +35,21 @@ TMP = BUILD / "tmp"
 REPLAY = BUILD / "replay"
 EVIDENCE = Path(os.environ.get("VERIF_EVIDENCE_DIR") or (VERIF / "evidence"))  # seeded runs redirect it
 MRUN = EXTRACT / "mrun"
-NPROC = min(16, os.cpu_count() or 4)
+def _nproc() -> int:
+    """Worker count: all cores when the machine is idle, fewer when it is already
+    oversubscribed (several checks running side by side); VERIF_NPROC overrides.
+    Only the degree of parallelism depends on this, never the set of cases."""
+    if os.environ.get("VERIF_NPROC"):
+        return max(1, int(os.environ["VERIF_NPROC"]))
+    n = min(16, os.cpu_count() or 4)
+    try:
+        load = os.getloadavg()[0]
+    except OSError:
+        load = 0.0
+    return max(4, min(n, int(n - load / 3)))
+
+
+NPROC = _nproc()
 
 FORBIDDEN = re.compile(
     r"\b(Admitted|admit|Axiom|Axioms|Parameter|Parameters|Conjecture|Conjectures|"
